@@ -46,25 +46,6 @@ func (c Ctor) ccoq() string {
 	return "CK (" + c.coq() + ")"
 }
 
-// cacheOnCache: a cache directly on another cache (only pass-through masks between them) is outside the
-// path model; such stacks get the L2 oracles only.
-func cacheOnCache(ks []Ctor) bool {
-	pending := false
-	for _, k := range ks {
-		switch k.Kind {
-		case "cache":
-			if pending {
-				return true
-			}
-			pending = true
-		case "ro", "enc":
-		default:
-			pending = false
-		}
-	}
-	return false
-}
-
 // changedFiles: the files of after that are new or differ from before
 func changedFiles(before, after []WalkEnt) (res [][]string) {
 	old := map[string]string{}
@@ -292,6 +273,7 @@ func runC03(o *Out, rng *RNG, tier string, replay string) {
 		{{"child", "nope"}}, {{"newsub", "nope/deep"}}, {{"newsub", "../x"}}, {{"newsub", "/../a"}}, {{"child", "a/f"}},
 		{{"cache", ""}, {"child", "a"}}, {{"cache", ""}, {"child", "a"}, {"child", "b"}}, {{"child", "a"}, {"cache", ""}, {"child", "b"}},
 		{{"cache", ""}, {"child", "../x"}}, {{"cache", ""}, {"child", "/a/../a/b"}},
+		{{"cache", ""}, {"cache", ""}, {"child", "a"}}, {{"child", "a"}, {"cache", ""}, {"enc", ""}, {"cache", ""}, {"child", "/../b"}},
 	}
 	kinds := []string{"Copy", "CopyDir", "CopyFile", "ReadDir", "IsExist", "IsFile", "IsDir", "MkdirAll", "ReadFile", "WriteFile", "Filespace", "Reader", "Writer", "Remove", "RemoveAll", "Lstat"}
 	nRandom := 1200
@@ -321,7 +303,7 @@ func runC03(o *Out, rng *RNG, tier string, replay string) {
 		if !ok {
 			out = FsOut{Kind: "err", Msg: "view creation failed"}
 		} else {
-			out = withTimeout(5*1e9, func() FsOut { return execOn(view, op) })
+			out = withTimeout(20*1e9, func() FsOut { return execOn(view, op) })
 			for i := len(caches) - 1; i >= 0; i-- {
 				caches[i].Commit()
 			}
@@ -345,7 +327,7 @@ func runC03(o *Out, rng *RNG, tier string, replay string) {
 			populate(root2, 1)
 			view2, caches2, ok2 := buildView(root2, ks)
 			if ok2 {
-				out2 := withTimeout(5*1e9, func() FsOut { return execOn(view2, op) })
+				out2 := withTimeout(20*1e9, func() FsOut { return execOn(view2, op) })
 				_ = caches2
 				if outSig(out) != outSig(out2) {
 					o.Fail("confined_reads", fmt.Sprintf("answer depends on what lies outside the view root %q: %s vs %s", vroot, outSig(out), outSig(out2)), "noninterf:"+op.Kind, desc)
@@ -356,7 +338,7 @@ func runC03(o *Out, rng *RNG, tier string, replay string) {
 		nontrivial := out.Kind != "err" && !(out.Kind == "bool" && !out.B)
 		// resolve probe (all stacks, caches included): a successful WriteFile lands exactly where the
 		// model's path transformer says the argument resolves to
-		if emitL1 && wok && ok && op.Kind == "WriteFile" && out.Kind == "unit" && !cacheOnCache(ks) {
+		if emitL1 && wok && ok && op.Kind == "WriteFile" && out.Kind == "unit" {
 			ch := changedFiles(before, after)
 			if len(ch) == 1 {
 				items := make([]string, len(ks))
@@ -432,7 +414,7 @@ func runC03(o *Out, rng *RNG, tier string, replay string) {
 			vroot = []string{"a", "b"}
 		}
 		hostBefore, _, _ := walkFs(mustDisk(base))
-		out := withTimeout(5*1e9, func() FsOut { return execOn(view, op) })
+		out := withTimeout(20*1e9, func() FsOut { return execOn(view, op) })
 		hostAfter, wok, why := walkFs(mustDisk(base))
 		desc := map[string]interface{}{"backend": "disk", "view_root": vroot, "op": op, "out": out.Kind}
 		o.Stat("disk_op_" + op.Kind)
